@@ -101,6 +101,28 @@ func (c *scriptConn) Read(p []byte) (int, error) {
 	return n, nil
 }
 
+// WriteTo makes scriptConn an io.WriterTo like *net.TCPConn: whatever the client has not been read yet goes to w.
+func (c *scriptConn) WriteTo(w io.Writer) (int64, error) {
+	var total int64
+	buf := make([]byte, 4096)
+	for {
+		n, err := c.Read(buf)
+		if n > 0 {
+			m, werr := w.Write(buf[:n])
+			total += int64(m)
+			if werr != nil {
+				return total, werr
+			}
+		}
+		if err != nil {
+			if err == io.EOF {
+				return total, nil
+			}
+			return total, err
+		}
+	}
+}
+
 func (c *scriptConn) Write(p []byte) (int, error) {
 	c.mu.Lock()
 	defer c.mu.Unlock()
@@ -233,6 +255,7 @@ type connResult struct {
 //	rb=N|all|none   how much of the body the handler reads (streaming) / observes
 //	bc=1            take the body through Request.Body()     rsb=1 Request.ResetBody()    sb=1 Request.SetBodyString
 //	sc=CODE         status code          body=TEXT   response body          close=1   SetConnectionClose
+//	hjc=1           the hijack handler drains the connection with io.Copy instead of Read calls
 //	hjg=1           the hijack handler waits for connServer.hjGate before it reads
 //	hj=1 hijack     hjn=1 HijackSetNoResponse     hjnr=1 HijackSetNoResponse(true) WITHOUT Hijack
 //	hcl=1           Response.Header.Set("Connection","close")
@@ -494,6 +517,11 @@ func newConnServer(cfg connCfg) *connServer {
 					n, _ := io.ReadFull(c, buf)
 					res.HijackRead = buf[:n]
 					res.HijackConn = c
+				} else if q.Has("hjc") {
+					// the tunnel / echo idiom: drain the connection with io.Copy (uses io.WriterTo when the source offers it)
+					var bb bytes.Buffer
+					io.Copy(struct{ io.Writer }{&bb}, c)
+					res.HijackRead = bb.Bytes()
 				} else {
 					b, _ := io.ReadAll(c)
 					res.HijackRead = b
